@@ -443,3 +443,29 @@ Section BytePipeFacts.
         exists (S k). simpl. fold B in Hk. now rewrite Hk.
   Qed.
 End BytePipeFacts.
+
+(* ------------------------------------------------------------------ *)
+(* the unit-level oracle accepts every history of the model proxy       *)
+
+Lemma sorted_ltb_of_ssorted l : StronglySorted N.lt l -> sorted_ltb l = true.
+Proof.
+  induction 1 as [|a l Hs IH Hf]; [reflexivity|].
+  destruct l as [|b t]; [reflexivity|].
+  change (sorted_ltb (a :: b :: t)) with (N.ltb a b && sorted_ltb (b :: t)). rewrite IH.
+  inversion Hf as [|? ? Hab ?]; subst. apply N.ltb_lt in Hab. now rewrite Hab.
+Qed.
+
+Lemma nodupN_of_NoDup l : NoDup l -> nodupN l = true.
+Proof.
+  induction 1 as [|a l Hn Hd IH]; [reflexivity|]. simpl. rewrite IH.
+  apply memN_false in Hn. now rewrite Hn.
+Qed.
+
+Theorem proxy_oracle_sound : forall evs st outs,
+  prun pst0 evs = (st, outs) -> check_C20_proxy evs outs = true.
+Proof.
+  intros evs st outs H. destruct (prun_spec _ _ _ _ pinv0 H) as (_ & _ & _ & _ & I5 & I6 & I7 & _).
+  unfold check_C20_proxy. rewrite (sorted_ltb_of_ssorted _ I5), (nodupN_of_NoDup _ I7).
+  rewrite andb_true_r. simpl. apply forallb_forall. intros r Hr. apply I6 in Hr. simpl in Hr.
+  apply existsb_exists. exists r. split; [exact Hr|]. now rewrite !N.eqb_refl.
+Qed.
